@@ -78,7 +78,7 @@ def _stem_job(args):
             elif src != 'close':
                 continue
             found = False
-            for sname in (st if not quick else {k: st[k] for k in ('trend', 'ramp', 'spike', 'walk1', 'notrade')}):
+            for sname in (st if not quick else {k: st[k] for k in ('trend', 'ramp', 'spike', 'walk1', 'notrade', 'zerovol-start')}):
                 full_c, second = st[sname], st2[sname]
                 try:
                     full = indreg.call(name, f, full_c, True, kw, second)
